@@ -20,20 +20,21 @@ Proof.
 Qed.
 
 (** ** the accepted constructs, checked while replaying the validator's height computation *)
-Definition ctl_ok (nl : Z) (v : vstate) (op : opcode) : bool :=
+Definition ctl_ok (nl : Z) (cx : cctx) (v : vstate) (op : opcode) : bool :=
   match op with
   | OEnd | OElse => true
   | OBlock None => match v_unreach v with None => (v_opds v =? 0)%nat | Some _ => false end
   | OIf None => match v_unreach v with None => (v_opds v =? 1)%nat | Some _ => false end
   | OLoop None => match v_unreach v with None => (v_opds v =? 0)%nat | Some _ => false end
   | OBasic (BBr _) | OBasic (BBrIf _) | OBasic BUnreachable => match v_unreach v with None => true | Some _ => false end
+  | OBasic BReturn => match v_unreach v, cx_return cx, v_ctrls v with None, None, _ :: _ => true | _, _, _ => false end
   | OBasic b => match v_unreach v with None => straight_ok b && locals_in nl b | Some _ => false end
   | _ => false
   end.
 Fixpoint lvl (nl : Z) (cx : cctx) (ops : list opcode) (v : vstate) : bool :=
   match ops with
   | [] => true
-  | op :: r => ctl_ok nl v op && match vstep cx v op with Some v1 => lvl nl cx r v1 | None => false end
+  | op :: r => ctl_ok nl cx v op && match vstep cx v op with Some v1 => lvl nl cx r v1 | None => false end
   end.
 
 Lemma lvl_app nl cx : forall a b v v1 s s1,
@@ -64,7 +65,7 @@ Proof.
          inversion H; rewrite P; rewrite (Q _ _ _ E); reflexivity).
 Qed.
 
-Lemma ctl_ok_straight nl v b : v_unreach v = None -> straight_ok b = true -> ctl_ok nl v (OBasic b) = true ->
+Lemma ctl_ok_straight nl cx v b : v_unreach v = None -> straight_ok b = true -> ctl_ok nl cx v (OBasic b) = true ->
   locals_in nl b = true.
 Proof.
   intros Hu Hs H. unfold ctl_ok in H. rewrite Hu in H.
@@ -88,7 +89,7 @@ Proof.
     destruct (handle_score cx s v1 b s1 Hst Eh) as [Hsc Hlen].
     pose proof (straight_vstep cx v b v1 Hst Hu Ev) as Hu1.
     pose proof (straight_vstep_ctrls cx v b v1 Hst Ev) as Hc1.
-    pose proof (score_cwf nl (c_last s) s b s1 Hst (ctl_ok_straight nl v b Hu Hb Hl1) W Hsc) as W1.
+    pose proof (score_cwf nl (c_last s) s b s1 Hst (ctl_ok_straight nl cx v b Hu Hb Hl1) W Hsc) as W1.
     pose proof (score_bp _ _ _ _ Hst Hsc) as Hbp. cbn [set_last c_bp] in Hbp.
     destruct (IH s1 v1 v' sf Hr Hc Hl2 Hu1 W1) as (A & B & C & D & E).
     splits; try congruence; auto. intros _. destruct r as [|b2 r']; [|apply E; discriminate].
@@ -127,7 +128,7 @@ Proof.
   rewrite compile_ops_app. intros H. destruct (compile_ops cx a v s) as [[v1 s1]|] eqn:E; [|discriminate]. exists v1, s1. auto.
 Qed.
 Lemma lvl_cons nl cx op r v v1 : lvl nl cx (op :: r) v = true -> vstep cx v op = Some v1 ->
-  ctl_ok nl v op = true /\ lvl nl cx r v1 = true.
+  ctl_ok nl cx v op = true /\ lvl nl cx r v1 = true.
 Proof. cbn [lvl]. intros H E. rewrite E in H. apply andb_true_iff in H. exact H. Qed.
 
 Lemma flatten_app a b : flatten (a ++ b) = flatten a ++ flatten b.
@@ -249,6 +250,12 @@ Proof.
            assert (P1 : pres nl s s1 v1).
            { constructor; auto. apply mono_eq; auto. rewrite O2. eapply bp_sub_refl. apply (i_frames _ _ _ I). }
            eapply pres_trans; [exact P1|]. eapply (IH rest); eauto. { cbn [lsize isize] in Hn. lia. } left. exact O6.
+      * (* return *)
+        unfold ctl_ok in Hk. rewrite Hu in Hk. destruct (cx_return cx) eqn:Hret; [discriminate|].
+        assert (Hne : v_ctrls v <> []) by (destruct (v_ctrls v); [discriminate|discriminate]).
+        destruct (op_return nl cx s v v1 s1 I Hu Hret Hne Ev Eh) as (O1 & O2 & O3 & O4 & O5 & O6 & I1 & Hu1 & X1).
+        rewrite (lvl_unreach_nil nl cx rest v1 Hu1 Hl') in Hc'. cbn in Hc'. inversion Hc'; subst v' s'.
+        constructor; auto. apply mono_eq; auto. rewrite O2. eapply bp_sub_refl. apply (i_frames _ _ _ I).
   - (* block *)
     rewrite flatten_block in Hc, Hl.
     destruct (compile_cons _ _ _ _ _ _ _ Hc) as (va & sa & Ev & Eh & Hc').
